@@ -112,6 +112,7 @@ Allowed(k, c, s) ==
     [] s.t = "wrongPassword"  -> {"Err"}
     [] s.t = "wrongUnwrapKey" -> {"Err"}
     [] s.t = "injected"       -> {"Err"}
+    [] s.t = "reencoded"      -> {"Same", "Err"}           \* a foreign encoding of the SAME key: the key or a refusal, never another key
     [] s.t = "tampered"       -> IF ~Authenticated(c) THEN Outcomes
                                  ELSE IF s.region \in Protected(c) THEN {"Err"} ELSE {"Err", "Same"}
     [] OTHER                  -> {}
@@ -138,6 +139,11 @@ UseWrongUnwrapKey ==
 InjectScalar(bad) ==
   /\ status.t = "intact" /\ outcome = "-" /\ InjectApplies(key.kind, cont, bad)
   /\ status' = [S0 EXCEPT !.t = "injected", !.cls = bad] /\ UNCHANGED <<key, cont, outcome>>
+(* The same key in an encoding other implementations write and parsers commonly tolerate: the SEC 1 privateKey    *)
+(* OCTET STRING with its leading zero octets stripped (old OpenSSL).  Not produced by the library itself.           *)
+Reencode ==
+  /\ status.t = "intact" /\ outcome = "-" /\ cont.fmt \in {"SEC1", "PKCS8"} /\ key.cls \in {"hiByteZero", "one"}
+  /\ status' = [S0 EXCEPT !.t = "reencoded"] /\ UNCHANGED <<key, cont, outcome>>
 Parse(o) ==
   /\ status.t # "none" /\ outcome = "-" /\ o \in Allowed(key, cont, status)
   /\ outcome' = o /\ UNCHANGED <<key, cont, status>>
@@ -150,7 +156,7 @@ WrongSecretNeverKey == (outcome # "-" /\ status.t \in {"wrongPassword", "wrongUn
 RangeRefused        == (outcome # "-" /\ status.t = "injected") => outcome = "Err"
 KcTypeOK == /\ key.kind \in Kinds \cup {"-"}
             /\ cont.fmt \in Fmts \cup {"-"}
-            /\ status.t \in {"none", "intact", "tampered", "wrongPassword", "wrongUnwrapKey", "injected"}
+            /\ status.t \in {"none", "intact", "tampered", "wrongPassword", "wrongUnwrapKey", "injected", "reencoded"}
             /\ outcome \in Outcomes \cup {"-"}
             /\ (cont.fmt # "-" => Applicable(key.kind, cont.fmt))
 =============================================================================
